@@ -58,9 +58,16 @@ func NewHTML(htmlContent utils.ContentInput, baseUrl string, urlFetcher utils.Ur
 
 	var out HTML
 	// html.Parse wraps the <html> tag
-	out.Root = (*utils.HTMLNode)(root.FirstChild)
-	if out.Root.Type == html.DoctypeNode {
-		out.Root = (*utils.HTMLNode)(out.Root.NextSibling)
+	// the root is the <html> element, which may come after
+	// a doctype and comments
+	for node := root.FirstChild; node != nil; node = node.NextSibling {
+		if node.Type == html.ElementNode {
+			out.Root = (*utils.HTMLNode)(node)
+			break
+		}
+	}
+	if out.Root == nil {
+		return nil, fmt.Errorf("invalid html input : no root element")
 	}
 	out.Root.Parent = nil
 	out.BaseUrl = utils.FindBaseUrl(root, result.BaseUrl)
